@@ -1,6 +1,7 @@
 package main
 
 import (
+	"fmt"
 	"go/token"
 	"go/types"
 
@@ -413,6 +414,7 @@ func c16Multi(c *Ctx) {
 		return &c16MultiG{c16G: g, fReaders: fReaders}
 	}
 
+	c16MultiOwnsList(c, fReaders)
 	c16MultiRead(c, mk(read))
 	hasClose := false
 	if writeTo != nil {
@@ -423,6 +425,40 @@ func c16Multi(c *Ctx) {
 	}
 	hasClose = c16MultiLoop(c, mk(closeFn), "streams.MultiReaderCloser.Close", false, true)
 	_ = hasClose
+}
+
+// c16MultiOwnsList (NOTE only): does a constructor keep a caller's slice as the
+// readers list? The statement of C16 quantifies over sources, chunkings, reader
+// styles, buffer sizes and the consumption route of ONE stream; for all of
+// those an aliased list behaves exactly like a copied one. It only differs
+// when the caller rewrites the slice it passed (`NewMultiReaderCloser(parts...)`
+// and reuse of parts) while the stream is live — a caller history outside that
+// quantifier — so this is reported as good practice, never as a violation.
+// Decided with the shared may-alias engine: the summary of every exported
+// function of the package says which parameter labels reach a store into the
+// list field.
+func c16MultiOwnsList(c *Ctx, fReaders FieldID) {
+	r, p := c.R, c.P
+	t := NewTaintEngine(p)
+	t.Run()
+	lbl := "field:" + fReaders.Type + "." + fReaders.Field
+	for _, fn := range p.FuncsOfPkg("streams") {
+		if fn.Parent() != nil || !isExportedFunc(fn) {
+			continue
+		}
+		sum := t.Sum[fn]
+		if sum == nil {
+			continue
+		}
+		for l := range sum.FieldStores[lbl] {
+			var i int
+			if _, err := fmt.Sscanf(l, "p%d", &i); err == nil && i < len(fn.Params) {
+				if _, isSlice := fn.Params[i].Type().Underlying().(*types.Slice); isSlice {
+					r.Note("%s keeps the caller's slice %q as the list of sources (no copy): a caller that passes `parts...` and reuses parts while the stream is live changes the stream's sources, and WriteTo nils the caller's entries (good practice as in io.MultiReader; outside what C16 quantifies over)", FuncName(p, fn), fn.Params[i].Name())
+				}
+			}
+		}
+	}
 }
 
 // c16MultiRead: the rules for Read (head-consuming form).
